@@ -154,7 +154,7 @@ pub fn check_input(inp: &V4, class: &str, rep: &mut Report) {
             let how = match exact_ties {
                 Some(t) => {
                     rep.count("tie_cycle_aperiodic", 1);
-                    format!("wandering (no period within 64 calls) among states whose exact quotient has {} coefficients equal to +-1/2 (exact integer identity checked)", t)
+                    format!("wandering (no period within 64 calls) among states whose exact quotient has {} coefficients equal to +-1/2 (exact integer arithmetic: adjugate of f f* + g g*)", t)
                 }
                 None => {
                     rep.count(&format!("tie_cycle_orbit_{}", states.len()), 1);
@@ -219,32 +219,74 @@ fn exact_quotient(f: &[i64], g: &[i64], cf: &[i64], cg: &[i64]) -> Option<Vec<nu
     Some((0..n).map(|i| m[i][n].clone()).collect())
 }
 
-/// Exact certificate of a rounding-tie state for ANY n: the exact quotient
-/// q = (F f* + G g*) / (f f* + g g*) equals M/2 for an integer polynomial M with every
-/// |M_i| <= 1 and at least one M_i odd. M is guessed in double precision (the numbers are
-/// small in a reduced state) and then VERIFIED by the exact integer identity
-/// (f f* + g g*) M = 2 (F f* + G g*) over Z[X]/(X^n+1). Returns the number of tied coefficients.
+/// a * b in Z[X]/(X^n+1) with big-integer coefficients (schoolbook; zero terms skipped).
+fn big_negamul(a: &[BigInt], b: &[BigInt]) -> Vec<BigInt> {
+    use num::Zero;
+    let n = a.len();
+    let mut out = vec![BigInt::zero(); n];
+    for (i, x) in a.iter().enumerate() {
+        if x.is_zero() {
+            continue;
+        }
+        for (j, y) in b.iter().enumerate() {
+            if y.is_zero() {
+                continue;
+            }
+            let k = i + j;
+            if k < n {
+                out[k] += x * y;
+            } else {
+                out[k - n] -= x * y;
+            }
+        }
+    }
+    out
+}
+
+/// Adjugate in Z[X]/(X^n+1) by the field-norm tower: returns (A, r) with a * A = r (an
+/// integer). a(x) a(-x) has even powers only and lives in the ring of half the size.
+fn big_adjugate(a: &[BigInt]) -> (Vec<BigInt>, BigInt) {
+    use num::{One, Zero};
+    let n = a.len();
+    if n == 1 {
+        return (vec![BigInt::one()], a[0].clone());
+    }
+    let a_neg: Vec<BigInt> = a.iter().enumerate().map(|(i, x)| if i % 2 == 1 { -x.clone() } else { x.clone() }).collect();
+    let p = big_negamul(a, &a_neg);
+    let half: Vec<BigInt> = (0..n / 2).map(|k| p[2 * k].clone()).collect();
+    let (ah, r) = big_adjugate(&half);
+    let mut lifted = vec![BigInt::zero(); n];
+    for (k, x) in ah.into_iter().enumerate() {
+        lifted[2 * k] = x;
+    }
+    (big_negamul(&a_neg, &lifted), r)
+}
+
+/// EXACT certificate of a rounding-tie state, for any n and any basis: with D = f f* + g g*,
+/// N = F f* + G g*, A the adjugate of D and rho = D A > 0 (an integer), the exact quotient is
+/// q = N A / rho. A tie state has every |2 (N A)_i| <= rho and at least one |2 (N A)_i| = rho,
+/// i.e. every coefficient of the exact quotient within [-1/2, 1/2] and some equal to +-1/2.
+/// All arithmetic is over the integers. Returns the number of tied coefficients.
 fn tie_state_exact(f: &[i64], g: &[i64], cf: &[i64], cg: &[i64]) -> Option<usize> {
-    use crate::refs::ffs::{fft, ifft, C};
-    let n = f.len();
+    use num::{Signed, Zero};
     let den: Vec<i128> = spec::negamul_z(f, &adjoint(f)).iter().zip(spec::negamul_z(g, &adjoint(g)).iter()).map(|(a, b)| a + b).collect();
     let num_: Vec<i128> = spec::negamul_z(cf, &adjoint(f)).iter().zip(spec::negamul_z(cg, &adjoint(g)).iter()).map(|(a, b)| a + b).collect();
-    if den.iter().chain(num_.iter()).any(|x| x.abs() > 1 << 50) {
+    let d: Vec<BigInt> = den.iter().map(|&x| BigInt::from(x)).collect();
+    let nn: Vec<BigInt> = num_.iter().map(|&x| BigInt::from(2 * x)).collect();
+    let (adj, rho) = big_adjugate(&d);
+    if rho.is_zero() {
         return None;
     }
-    let dh = fft(&den.iter().map(|&x| x as f64).collect::<Vec<f64>>());
-    let nh = fft(&num_.iter().map(|&x| 2.0 * x as f64).collect::<Vec<f64>>());
-    if dh.iter().any(|c| c.0.abs() < 1e-9) {
+    let rho = rho.abs();
+    // sign: D is totally positive, so rho = D A > 0 when A is the true adjugate; the tower may
+    // return (-A, -rho): only magnitudes are compared below
+    let q2 = big_negamul(&nn, &adj);
+    if q2.iter().any(|x| x.abs() > rho) {
         return None;
     }
-    let m: Vec<i64> = ifft(&(0..n).map(|k| nh[k].div(C(dh[k].0, 0.0))).collect::<Vec<C>>()).iter().map(|x| x.round() as i64).collect();
-    if m.iter().any(|x| x.abs() > 1) || m.iter().all(|x| x % 2 == 0) {
-        return None;
-    }
-    let den64: Vec<i64> = den.iter().map(|&x| x as i64).collect();
-    let lhs = spec::negamul_z(&den64, &m);
-    if (0..n).all(|i| lhs[i] == 2 * num_[i]) {
-        Some(m.iter().filter(|x| *x % 2 != 0).count())
+    let ties = q2.iter().filter(|x| x.abs() == rho).count();
+    if ties > 0 {
+        Some(ties)
     } else {
         None
     }
